@@ -1,31 +1,60 @@
 """C19  Character-matrix row/column operations select exactly what they name; terminate.
 
-Monitor: a lock-step matrix model ({taxon label: [symbols]} + named column subsets) for EVERY live matrix of a pool over
-one namespace.  Each operation is applied to the real matrix under a JUMP step budget (non-termination is a verdict,
-the wall-clock watchdog only inconclusive) and to the model as documented; afterwards every matrix of the pool -
-receiver, arguments and bystanders - is compared with its model (so an argument that was changed, or a row aliased
-between two matrices and mutated later, is seen).
-  concatenate       per taxon the concatenation in argument order; one subset per source matrix covering exactly its columns;
-                    documented ValueError when a precondition is violated (foreign namespace, missing taxa, unequal lengths)
-  export            export_character_indices / export_character_subset: the selected columns ascending for every taxon
-  fill / pack       afterwards all sequences equally long, existing cells unchanged (append or prepend); fill_taxa adds empty rows
-  row algebra       add_/replace_/update_/extend_(is_add_new)/extend_matrix/remove_/discard_/keep_sequences change exactly the documented rows
-  namespace         a matrix over another namespace is refused (TaxonNamespaceIdentityError; ValueError for concatenate)
-Soundness limits: concatenate's exactness clause only when its documented preconditions hold; fill with an explicit size is
-only called with size >= the longest sequence (otherwise "equally long" is not achievable by padding)."""
+Monitor: a lock-step matrix model (rows {taxon label: [symbols]}, the character type of every cell, the named column
+subsets, the matrix label; _c19_model.py) for EVERY watched matrix: the pool over one namespace AND the matrices over other
+namespaces that are offered as arguments.  Each operation is applied to the real matrix under a JUMP step budget
+(non-termination is a verdict, the wall-clock watchdog only inconclusive) and to the model as documented; afterwards every
+watched matrix - receiver, arguments, bystanders - is compared with its model: rows, cell types, subsets, label, and the
+well-formedness of the row map (so an argument that was changed in any of these, also by a call that refused it, or a row
+aliased between two matrices and mutated later, is seen).
+  concatenate       per taxon the concatenation in argument order; one subset per source matrix covering exactly its columns
+                    (a subset named after a uniquely labelled source must cover THAT source); refusal (ValueError/TypeError)
+                    when a documented precondition is violated (another namespace, missing taxa, unequal lengths) - the
+                    defective matrix at any position, lacking the first / last / some / all taxa; parts fresh or from the
+                    pool (with history); through the class, an instance, the base class, and from streams / paths
+  export            export_character_indices / export_character_subset: the selected columns (value AND character type)
+                    ascending for every taxon; index containers list/tuple/set/range/iterator; subsets new, recorded
+                    earlier (also by concatenate), or the subset object of another matrix
+  fill / pack       rows shorter than the target padded to exactly the target, existing cells (value and type) unchanged,
+                    append or prepend; all equally long when the target is >= the longest row; fill_taxa adds empty rows
+  row algebra       add_/replace_/update_/extend_(is_add_new)/extend_matrix/remove_/discard_/keep_sequences change exactly
+                    the documented rows; taxa containers list/tuple/set/iterator, duplicates, Taxon objects of another
+                    namespace carrying the same labels (they name no row)
+  namespace         a matrix over another namespace OBJECT is refused whatever its taxa (same labels, the very same Taxon
+                    objects, sub-/superset, empty; all / some / no rows), receiver and refused matrix unchanged
+Soundness limits: concatenate's exactness clause only when its documented preconditions hold; concatenate([]) is not
+driven (no namespace to return); after the documented KeyError of remove_sequences any subset of the named rows may be
+gone (the documentation does not say whether it validates first); with a duplicated taxon remove_sequences may raise or
+not; out-of-range export indices select nothing, an IndexError/ValueError for them is accepted; negative indices are not
+driven (undefined); the character types of cells that an operation copies or creates are recorded, not judged; "equally
+long" is not demanded of fill/pack with a size below the longest row; the refusal may be any ValueError/TypeError."""
+import io
+import os
 import random
+import re
+import shutil
+import tempfile
 
 from .. import core
 from ..mon.budget import budget, StepBudgetExceeded
+from ._c19_model import TYPES, WILD, Model, Pool, snapshot, types_agree, as_container
 
 PROP = "C19"
-LEVEL_TEXT = 'A lock-step model of every matrix in a pool is advanced with each operation of random histories and compared with all live matrices afterwards (receiver, arguments, bystanders); every operation runs under a JUMP step budget (non-termination is a verdict).'
-LEVEL_NOTE = 'Trusted: the dictionary model in the module; symbols read from the raw taxon->sequence map.'
+LEVEL_TEXT = ('A lock-step model (rows, cell character types, column subsets, label) of every matrix in a pool - and of the matrices over other '
+              'namespaces offered to it - is advanced with each operation of random histories and compared with all live matrices afterwards '
+              '(receiver, arguments, bystanders); every operation runs under a JUMP step budget (non-termination is a verdict).')
+LEVEL_NOTE = 'Trusted: the dictionary model in vf/props/_c19_model.py; cells read from the raw taxon->sequence map and the parallel value/type/annotation lists.'
 LEVEL = "exploration"
-TECHNIQUE = "runtime monitoring: lock-step matrix model for a pool of matrices + JUMP step budget per operation (termination)"
-RULE = ("random histories (length 25) of row/column operations over a pool of 3-4 matrices of one data type sharing a namespace (+ one foreign), "
-        "dimensions 0-8 x 0-12 (quick) up to 60 x 400, labels None / repeated / shared objects for concatenate, index sets empty / all / duplicated / "
-        "out of range; non-trivial = operation changed or selected at least one cell; distinct = (operation, shape of operands, index-set class)")
+TECHNIQUE = ("runtime monitoring: lock-step matrix model (rows, cell types, subsets, label) for a pool of matrices + watched foreign matrices; "
+             "JUMP step budget per operation (termination)")
+RULE = ("random histories (length 25) of row/column operations over a pool of 3-4 matrices of one data type sharing a namespace, built through "
+        "new_sequence(str) / from_dict / coerce_values / typed cell-wise append in random taxon order, + up to 3 matrices over other namespaces "
+        "(same labels, shared Taxon objects, sub-/superset, empty; full/partial/empty); dimensions 0-8 x 0-12 (quick) up to 60 x 400; concatenate with "
+        "labels None / repeated / shared objects, parts fresh or from the pool, the defective part at any position (first/last/some/all taxa missing), "
+        "through class / instance / base class / streams / paths; index sets empty / all / duplicated / out of range / unordered in list, tuple, set, "
+        "range, iterator; taxa arguments with duplicates and same-label strangers; fill/pack sizes None / longest / above / below / 0 in keyword, "
+        "default and positional form; non-trivial = operation changed or selected at least one cell; distinct = (operation, shape of operands, "
+        "index-set class)")
 REACH = ["charmatrixmodel:CharacterMatrix.concatenate", "charmatrixmodel:CharacterMatrix.extend_matrix",
          "charmatrixmodel:CharacterMatrix.new_character_subset", "charmatrixmodel:CharacterMatrix.export_character_indices",
          "charmatrixmodel:CharacterMatrix.export_character_subset", "charmatrixmodel:CharacterMatrix.fill",
@@ -33,109 +62,25 @@ REACH = ["charmatrixmodel:CharacterMatrix.concatenate", "charmatrixmodel:Charact
          "charmatrixmodel:CharacterMatrix.add_sequences", "charmatrixmodel:CharacterMatrix.replace_sequences",
          "charmatrixmodel:CharacterMatrix.update_sequences", "charmatrixmodel:CharacterMatrix.extend_sequences",
          "charmatrixmodel:CharacterMatrix.remove_sequences", "charmatrixmodel:CharacterMatrix.discard_sequences",
-         "charmatrixmodel:CharacterMatrix.keep_sequences"]
+         "charmatrixmodel:CharacterMatrix.keep_sequences", "charmatrixmodel:CharacterMatrix.concatenate_from_streams",
+         "charmatrixmodel:CharacterMatrix.concatenate_from_paths", "charmatrixmodel:CharacterMatrix.from_dict",
+         "charmatrixmodel:CharacterDataSequence.__delitem__", "charmatrixmodel:CharacterDataSequence.insert"]
 MIN_EVENTS = {"op-applied": (8000, 200000), "pool-compared-with-model": (8000, 200000), "concatenate-judged": (400, 8000),
-              "concatenate-same-label": (50, 1000), "export-judged": (500, 10000), "foreign-namespace-refused": (200, 4000)}
-ASSUMPTIONS = ["cells are compared by symbol (discrete) or value (continuous), read from the raw taxon->sequence map (matrix[taxon] itself creates rows)"]
+              "concatenate-same-label": (50, 1000), "export-judged": (500, 10000), "foreign-namespace-refused": (200, 4000),
+              "concatenate-refusal-judged": (1800, 5300), "concatenate-of-pool-matrices-judged": (1000, 2800),
+              "concatenate-subset-association-judged": (3200, 8600), "concatenate-io-judged": (130, 500),
+              "export-of-recorded-subset": (200, 600), "export-of-typed-cells-judged": (600, 2400), "fill-size-below-longest-row": (900, 2900),
+              "foreign-namespace-refused:same-labels": (700, 2000), "foreign-namespace-refused:shared-taxa": (700, 2000),
+              "foreign-namespace-refused:subset-shared": (700, 2000), "foreign-namespace-refused:superset-shared": (700, 2000),
+              "foreign-namespace-refused:empty": (700, 2000), "remove-refusal-judged": (1500, 4800),
+              "taxa-argument:duplicates": (2200, 6200), "taxa-argument:strangers": (2200, 6200),
+              "matrix-built:typed": (10000, 27600), "matrix-built:dict": (5000, 13800), "matrix-built:setitem-coerced": (5000, 13800)}
+ASSUMPTIONS = ["cells are compared by symbol (discrete) or value (continuous) and by the label of their CharacterType, read from the raw "
+               "taxon->sequence map (matrix[taxon] itself creates rows)",
+               "the character types of cells that an operation copies into another matrix or creates are not determined by the statement (recorded only)"]
 CASE_TIMEOUT = 120
 
-TYPES = {"dna": ("DnaCharacterMatrix", "ACGTRYN-?"), "protein": ("ProteinCharacterMatrix", "ACDEFGHIKLMNPQRSTVWYX-?"),
-         "standard": ("StandardCharacterMatrix", "0123456789-?"), "rna": ("RnaCharacterMatrix", "ACGUN-"),
-         "continuous": ("ContinuousCharacterMatrix", None), "restriction": ("RestrictionSitesCharacterMatrix", "01-?"),
-         "infinite": ("InfiniteSitesCharacterMatrix", "01")}
-
-
-def cell(v):
-    return getattr(v, "symbol", v)
-
-
-def snapshot(m):
-    """model of a live matrix, read without side effects."""
-    rows = {}
-    for taxon, seq in m._taxon_sequence_map.items():
-        rows[taxon.label] = [cell(v) for v in seq.values()]
-    subsets = dict((str(k), sorted(cs.character_indices)) for k, cs in m.character_subsets.items())
-    return rows, subsets
-
-
-class Pool(object):
-    def __init__(self, ctx, rng, dtype):
-        import dendropy
-        self.ctx, self.rng, self.dtype = ctx, rng, dtype
-        self.cls = getattr(dendropy, TYPES[dtype][0])
-        quick = ctx.tier == "quick"
-        self.ntax = rng.choice([1, 2, 3, 5, 8]) if quick else rng.choice([1, 2, 4, 8, 20, 60])
-        self.labels = ["t%d" % i for i in range(self.ntax)]
-        self.ns = dendropy.TaxonNamespace(self.labels)
-        self.foreign_ns = dendropy.TaxonNamespace(self.labels)
-        self.mats = []      # live matrices
-        self.models = []    # [rows dict, subsets dict]
-        self.maxlen = rng.choice([0, 1, 3, 6, 12]) if quick else rng.choice([0, 1, 5, 20, 100, 400])
-
-    def values(self, n):
-        rng = self.rng
-        alpha = TYPES[self.dtype][1]
-        if alpha is not None:
-            if not hasattr(self, "_alpha"):
-                probe = self.cls(taxon_namespace=self.ns)
-                sa = probe.default_state_alphabet
-                ok = []
-                for ch in alpha:
-                    try:
-                        sa[ch]
-                        ok.append(ch)
-                    except KeyError:
-                        pass
-                self._alpha = "".join(ok)
-            alpha = self._alpha
-        if alpha is None:
-            return [rng.choice([0.0, 1.5, -2.25, 1e-3, 7.0]) for _ in range(n)]
-        return [rng.choice(alpha) for _ in range(n)]
-
-    def new_matrix(self, ns=None, taxa=None, length=None, label="auto", ragged=False):
-        rng = self.rng
-        ns = ns or self.ns
-        if taxa is None:
-            taxa = [t for t in ns if rng.random() < 0.8]
-        if length is None:
-            length = rng.randint(0, self.maxlen)
-        m = self.cls(taxon_namespace=ns)
-        if label == "auto":
-            label = rng.choice([None, None, "locus", "a", "A", "x y", "locus000"])
-        m.label = label
-        rows = {}
-        for t in taxa:
-            n = length if not ragged else rng.randint(0, length)
-            vals = self.values(n)
-            m.new_sequence(t, vals if TYPES[self.dtype][1] is None else "".join(vals))
-            rows[t.label] = [v.upper() if isinstance(v, str) else v for v in vals]
-        return m, [rows, {}]
-
-    def add(self, m, model):
-        self.mats.append(m)
-        self.models.append(model)
-        return len(self.mats) - 1
-
-    def compare_all(self, where, det):
-        ctx = self.ctx
-        ok = True
-        for i, (m, (rows, subsets)) in enumerate(zip(self.mats, self.models)):
-            ctx.ev("pool-compared-with-model")
-            got_rows, got_subsets = snapshot(m)
-            if got_rows != rows:
-                role = det.get("roles", {}).get(i, "bystander")
-                if set(got_rows) != set(rows):
-                    what = "rows %s, model %s" % (sorted(got_rows), sorted(rows))
-                    clause = "row-set"
-                else:
-                    bad = [k for k in rows if rows[k] != got_rows[k]][0]
-                    what = "row %s is %s, model %s" % (bad, "".join(map(str, got_rows[bad]))[:60], "".join(map(str, rows[bad]))[:60])
-                    clause = "cells"
-                ctx.violation("%s|%s-matrix-differs-from-model|%s" % (where, role, clause), what, det)
-                ok = False
-                # resynchronise so that one defect is reported once
-                self.models[i][0] = got_rows
-        return ok
+REFUSAL = (ValueError, TypeError)     # TaxonNamespaceIdentityError is a ValueError
 
 
 def run_budgeted(ctx, op, limit, fn, det, allowed=()):
@@ -159,23 +104,76 @@ def run_budgeted(ctx, op, limit, fn, det, allowed=()):
 
 def cases(tier, seed):
     yield {"kind": "directed-same-label", "seed": seed}
-    for i in range(8000 if tier == "quick" else 40000):
+    yield {"kind": "directed-typed-row-copy", "seed": seed}
+    for i in range(6000 if tier == "quick" else 18000):
         yield {"kind": "history", "i": i, "seed": seed}
-    for i in range(3000 if tier == "quick" else 15000):
+    for i in range(2800 if tier == "quick" else 9000):
         yield {"kind": "concat", "i": i, "seed": seed}
+    for i in range(300 if tier == "quick" else 1200):
+        yield {"kind": "concat-io", "i": i, "seed": seed}
 
 
 def ncells(pool):
-    return sum(len(v) for rows, _ in pool.models for v in rows.values()) + 10 * len(pool.labels)
+    return (sum(len(v) for mo in pool.models for v in mo.rows.values()) + sum(len(v) for e in pool.foreign for v in e[1].rows.values())
+            + 10 * (len(pool.labels) + 2))
+
+
+COLLIDING = re.compile(r"^locus\d+$|_\d{3,}$", re.I)
+
+
+def judge_concat_result(ctx, opname, res, part_models, part_labels, labels, det, pool=None):
+    """the exactness clauses of concatenate; returns the snapshot of the result"""
+    got, problems = snapshot(res)
+    for p in sorted(set(problems)):
+        ctx.violation("%s|result-malformed|%s" % (opname, p), "the concatenated matrix is malformed: %s" % p, det)
+        if pool is not None:
+            pool.malformed.add((id(res), p))
+    want = dict((lbl, []) for lbl in labels)
+    ranges = []
+    pos = 0
+    for mo in part_models:
+        width = len(next(iter(mo.rows.values()))) if mo.rows else 0
+        for lbl in labels:
+            want[lbl] += mo.rows[lbl]
+        ranges.append(list(range(pos, pos + width)))
+        pos += width
+    if got.rows != want:
+        ctx.violation("%s|rows-are-not-the-concatenation-in-argument-order" % opname, "result differs from per-taxon concatenation", det)
+    got_ranges = sorted(got.subsets.values())
+    if len(got.subsets) != len(part_models) or got_ranges != sorted(ranges):
+        ctx.violation("%s|character-subsets-do-not-cover-the-source-matrices" % opname,
+                      "subsets %s, expected one per source covering %s" % (got.subsets, ranges), det)
+    else:
+        # which subset belongs to which source: decidable through the name when a source's label is unique and cannot collide
+        # with a generated name
+        lowered = [None if l is None else str(l).lower() for l in part_labels]
+        by_lower = dict((k.lower(), v) for k, v in got.subsets.items())
+        for j, l in enumerate(lowered):
+            if l is None or lowered.count(l) != 1 or COLLIDING.search(l):
+                continue
+            if l in by_lower:
+                ctx.ev("concatenate-subset-association-judged")
+                if by_lower[l] != ranges[j]:
+                    ctx.violation("%s|subset-named-after-a-source-covers-other-columns" % opname,
+                                  "subset %r covers %s, its source occupies %s" % (l, by_lower[l][:6], ranges[j][:6]), det)
+            else:
+                ctx.note("concatenate-subset-not-named-after-its-source")
+    return got, want, pos
 
 
 def do_concat(ctx, pool, rng, directed=None):
     """one concatenate call with its oracle."""
-    from dendropy.utility import error
+    from dendropy.datamodel.charmatrixmodel import CharacterMatrix
     k = rng.randint(1, 5)
-    length_mode = "equal"
+    scenario = directed or rng.choice(["ok", "ok", "ok", "same-label", "same-object", "none-labels", "foreign", "missing-taxa", "ragged",
+                                       "from-pool", "from-pool"])
+    if scenario == "missing-taxa" and pool.ntax == 0:
+        scenario = "ok"
+    if scenario == "foreign" and k < 2:
+        k = 2
+    d = rng.randrange(k)        # position of the defective matrix
     parts, models = [], []
-    scenario = directed or rng.choice(["ok", "ok", "ok", "same-label", "same-object", "none-labels", "foreign", "missing-taxa", "ragged"])
+    missing_mode = None
     for j in range(k):
         if scenario == "same-label":
             lbl = "locus" if j != 1 else rng.choice(["locus", "LOCUS"])
@@ -183,89 +181,175 @@ def do_concat(ctx, pool, rng, directed=None):
             lbl = None
         else:
             lbl = "auto"
+        if scenario == "from-pool" and pool.mats:
+            cand = [i for i, mo in enumerate(pool.models) if mo.complete(pool.labels) and mo.equal_lengths()]
+            i = rng.choice(cand) if cand and rng.random() < 0.75 else rng.randrange(len(pool.mats))
+            parts.append(pool.mats[i])
+            models.append(pool.models[i])
+            continue
+        if scenario == "foreign" and j == d:
+            entry = pool.foreign_matrix()
+            parts.append(entry[0])
+            models.append(entry[1])
+            continue
         taxa = list(pool.ns)
-        if scenario == "missing-taxa" and j == k - 1 and len(taxa) > 1:
-            taxa = taxa[:-1]
-        ns = pool.foreign_ns if (scenario == "foreign" and j == k - 1 and k > 1) else pool.ns
-        if ns is pool.foreign_ns:
-            taxa = list(ns)
-        m, model = pool.new_matrix(ns=ns, taxa=taxa, label=lbl, ragged=(scenario == "ragged" and j == k - 1))
+        if scenario == "missing-taxa" and j == d:
+            missing_mode = rng.choice(["first", "last", "all", "some"])
+            if missing_mode == "first":
+                taxa = taxa[1:]
+            elif missing_mode == "last":
+                taxa = taxa[:-1]
+            elif missing_mode == "all":
+                taxa = []
+            else:
+                drop = rng.randrange(len(taxa))
+                taxa = [t for c, t in enumerate(taxa) if c != drop and rng.random() < 0.7]
+        m, model = pool.new_matrix(taxa=taxa, label=lbl, ragged=(scenario == "ragged" and j == d))
         parts.append(m)
         models.append(model)
     if scenario == "same-object" and k >= 2:
-        parts[-1] = parts[0]
-        models[-1] = models[0]
+        a, b = rng.sample(range(k), 2)
+        parts[b] = parts[a]
+        models[b] = models[a]
     if scenario == "same-label" and k < 2:
         parts.append(parts[0])
         models.append(models[0])
-    idxs = [pool.add(m, mo) for m, mo in zip(parts, models)] if False else None
-    base = len(pool.mats)
+    roles, froles = {}, {}
     for m, mo in zip(parts, models):
-        if m.taxon_namespace is pool.ns and not any(m is x for x in pool.mats):
-            pool.add(m, mo)
-    det = {"op": "concatenate", "scenario": scenario, "labels": [m.label for m in parts],
-           "dims": [(len(mo[0]), [len(v) for v in mo[0].values()][:3]) for mo in models], "dtype": pool.dtype}
+        if m.taxon_namespace is pool.ns:
+            i = pool.index_of(m)
+            if i is None:
+                i = pool.add(m, mo)
+            roles[i] = "argument"
+        else:
+            for fi, e in enumerate(pool.foreign):
+                if e[0] is m:
+                    froles[fi] = "argument"
+    route = rng.choice(["class", "class", "class", "instance", "base"])
+    det = {"op": "concatenate", "scenario": scenario, "labels": [m.label for m in parts], "route": route, "defective_position": d,
+           "missing": missing_mode, "dims": [(len(mo.rows), [len(v) for v in mo.rows.values()][:3]) for mo in models], "dtype": pool.dtype,
+           "roles": roles, "foreign_roles": froles}
     # preconditions as documented
     pre_ok = True
     why = None
-    if any(m.taxon_namespace is not pool.ns for m in parts):
+    ns0 = parts[0].taxon_namespace
+    if any(m.taxon_namespace is not ns0 for m in parts):
         pre_ok, why = False, "foreign namespace"
-    elif any(len(mo[0]) != len(pool.labels) for mo in models):
+    elif any(not mo.complete(pool.labels) for mo in models):
         pre_ok, why = False, "not all taxa in all matrices"
-    elif any(len(set(len(v) for v in mo[0].values())) > 1 for mo in models):
+    elif any(not mo.equal_lengths() for mo in models):
         pre_ok, why = False, "unequal sequence lengths"
     limit = 20000 + 300 * (ncells(pool) + 1)
     ctx.ev("op-applied")
-    status, res = run_budgeted(ctx, "concatenate", limit, lambda: pool.cls.concatenate(parts), det, allowed=(ValueError,))
+    if route == "class":
+        thunk = lambda: pool.cls.concatenate(parts)
+    elif route == "instance":
+        thunk = lambda: parts[rng.randrange(len(parts))].concatenate(parts)
+    else:
+        thunk = lambda: CharacterMatrix.concatenate(parts)
+    # (an empty FIRST namespace has a mechanism of its own - the row accessor by position - and gets its own operation name)
+    opname = "concatenate" if len(ns0) else "concatenate-over-empty-namespace"
+    status, res = run_budgeted(ctx, opname, limit, thunk, det, allowed=REFUSAL)
     if scenario in ("same-label", "same-object"):
         ctx.ev("concatenate-same-label")
     if status in ("nonterminating", "unexpected"):
+        pool.compare_all("concatenate", det)
         return
     if not pre_ok:
-        if why == "foreign namespace":
-            ctx.ev("foreign-namespace-refused")
         if status == "ok":
             if why == "foreign namespace":
                 ctx.violation("concatenate|foreign-namespace-accepted", "matrices over different namespaces were concatenated", det)
             else:
                 ctx.note("concatenate-accepted-violated-precondition(%s)" % why.replace(" ", "-"))
+        else:
+            if why == "foreign namespace":
+                ctx.ev("foreign-namespace-refused")
+            ctx.ev("concatenate-refusal-judged")
         pool.compare_all("concatenate", det)
         return
     if status == "documented":
-        ctx.violation("concatenate|refuses-admissible-matrices", "ValueError although all documented preconditions hold: %s" % core.exc_brief(res), det)
+        ctx.violation("concatenate|refuses-admissible-matrices", "%s although all documented preconditions hold" % core.exc_brief(res), det)
+        pool.compare_all("concatenate", det)
         return
     ctx.ev("concatenate-judged")
-    rows, subsets = snapshot(res)
-    want = dict((lbl, []) for lbl in pool.labels)
-    ranges = []
-    pos = 0
-    for mo in models:
-        width = len(next(iter(mo[0].values()))) if mo[0] else 0
-        for lbl in pool.labels:
-            want[lbl] += mo[0][lbl]
-        ranges.append(list(range(pos, pos + width)))
-        pos += width
-    if rows != want:
-        ctx.violation("concatenate|rows-are-not-the-concatenation-in-argument-order", "result differs from per-taxon concatenation", det)
-    got_ranges = sorted(subsets.values())
-    if len(subsets) != len(parts) or got_ranges != sorted(ranges):
-        ctx.violation("concatenate|character-subsets-do-not-cover-the-source-matrices",
-                      "subsets %s, expected one per source covering %s" % (subsets, ranges), det)
+    if scenario == "from-pool":
+        ctx.ev("concatenate-of-pool-matrices-judged")
+    got, want, pos = judge_concat_result(ctx, "concatenate", res, models, [m.label for m in parts], pool.labels, det, pool)
     if res.taxon_namespace is not pool.ns:
         ctx.violation("concatenate|result-in-other-namespace", "", det)
     pool.compare_all("concatenate", det)
-    pool.add(res, [want, dict(subsets)])
+    if route != "base" and res.taxon_namespace is pool.ns:
+        pool.add(res, got)
     if pos and len(parts) > 1:
-        ctx.nontrivial(("concat", scenario, len(parts), pos, tuple(str(m.label) for m in parts)))
+        ctx.nontrivial(("concat", scenario, route, len(parts), pos, tuple(str(m.label) for m in parts)))
+
+
+def do_concat_io(ctx, case, rng):
+    """concatenate_from_streams / concatenate_from_paths: the same exactness clauses, the sources being FASTA documents."""
+    import dendropy
+    dtype = rng.choice([t for t in TYPES if TYPES[t][1] is not None])
+    pool = Pool(ctx, rng, dtype)
+    alpha = [ch for ch in pool.alphabet() if ch not in "-?"] or list(pool.alphabet())
+    ntax = rng.choice([1, 2, 3, 5])
+    labels = ["t%d" % i for i in range(ntax)]
+    k = rng.randint(1, 4)
+    models, docs = [], []
+    for j in range(k):
+        width = rng.randint(1, 8)
+        rows = dict((l, [rng.choice(alpha) for _ in range(width)]) for l in labels)
+        order = list(labels)
+        if j:
+            rng.shuffle(order)
+        docs.append("".join(">%s\n%s\n" % (l, "".join(rows[l])) for l in order))
+        models.append(Model(rows))
+    route = rng.choice(["streams", "streams", "paths"])
+    kwargs = {}
+    given_ns = None
+    if rng.random() < 0.5:
+        given_ns = kwargs["taxon_namespace"] = dendropy.TaxonNamespace()
+    det = {"op": "concatenate_from_" + route, "dtype": dtype, "ntax": ntax, "widths": [mo.width() for mo in models], "documents": docs[:3]}
+    limit = 200000 + 3000 * sum(len(x) for x in docs)
+    ctx.ev("op-applied")
+    tmp = None
+    try:
+        if route == "streams":
+            streams = [io.StringIO(x) for x in docs]
+            status, res = run_budgeted(ctx, "concatenate_from_streams", limit,
+                                       lambda: pool.cls.concatenate_from_streams(streams, "fasta", **kwargs), det)
+        else:
+            tmp = tempfile.mkdtemp(prefix="vf-c19-")
+            paths = []
+            for j, x in enumerate(docs):
+                p = os.path.join(tmp, "part%d.fasta" % j)
+                with open(p, "w") as f:
+                    f.write(x)
+                paths.append(p)
+            status, res = run_budgeted(ctx, "concatenate_from_paths", limit,
+                                       lambda: pool.cls.concatenate_from_paths(paths, "fasta", **kwargs), det)
+    finally:
+        if tmp:
+            shutil.rmtree(tmp, ignore_errors=True)
+    if status != "ok":
+        return
+    ctx.ev("concatenate-io-judged")
+    opname = "concatenate_from_" + route
+    got_labels = sorted(t.label for t in res.taxon_namespace)
+    if got_labels != sorted(labels):
+        ctx.violation("%s|result-namespace-is-not-the-taxa-of-the-sources" % opname, "taxa %s, expected %s" % (got_labels, labels), det)
+        return
+    if given_ns is not None and res.taxon_namespace is not given_ns:
+        ctx.violation("%s|result-in-other-namespace" % opname, "the given taxon_namespace was not used", det)
+    judge_concat_result(ctx, opname, res, models, [None] * k, labels, det)
+    ctx.nontrivial(("concat-io", route, dtype, ntax, k, tuple(mo.width() for mo in models)))
 
 
 def history(ctx, case, rng):
-    from dendropy.utility import error
+    import dendropy
     dtype = rng.choice(list(TYPES))
     pool = Pool(ctx, rng, dtype)
     for _ in range(rng.randint(2, 4)):
         pool.add(*pool.new_matrix(ragged=rng.random() < 0.5))
-    foreign, fmodel = pool.new_matrix(ns=pool.foreign_ns, taxa=list(pool.foreign_ns))
+    twin_ns = dendropy.TaxonNamespace(pool.labels)      # strangers carrying our labels (taxa arguments)
     ops = ["concat", "export_idx", "export_subset", "fill", "fill_taxa", "pack", "add", "replace", "update", "extend", "extend_new",
            "extend_matrix", "remove", "discard", "keep", "foreign", "new_sequence", "setitem"]
     log = []
@@ -273,30 +357,36 @@ def history(ctx, case, rng):
         op = rng.choice(ops)
         i = rng.randrange(len(pool.mats))
         j = rng.randrange(len(pool.mats))
-        m, (rows, subsets) = pool.mats[i], pool.models[i]
-        o, (orows, osubsets) = pool.mats[j], pool.models[j]
+        m, model = pool.mats[i], pool.models[i]
+        o, omodel = pool.mats[j], pool.models[j]
+        rows, orows = model.rows, omodel.rows
         det = {"op": op, "dtype": dtype, "receiver_rows": dict((k, len(v)) for k, v in list(rows.items())[:6]),
-               "argument_rows": dict((k, len(v)) for k, v in list(orows.items())[:6]), "history": log[-6:], "roles": {i: "receiver", j: "argument"}}
-        if i == j:
-            det["roles"] = {i: "receiver"}
+               "argument_rows": dict((k, len(v)) for k, v in list(orows.items())[:6]), "history": log[-6:], "roles": {i: "receiver"}}
         log.append(op)
         limit = 20000 + 300 * (ncells(pool) + 1)
-        ctx.ev("op-applied")
-        TNIE = error.TaxonNamespaceIdentityError
         if op == "concat":
             do_concat(ctx, pool, rng)
             continue
+        if not (op == "new_sequence" and len(rows) == pool.ntax) and not (op == "setitem" and not pool.ntax):
+            ctx.ev("op-applied")
         if op == "foreign":
+            entry = pool.foreign_matrix()
+            fi = [x for x, e in enumerate(pool.foreign) if e is entry][0]
+            det["foreign_roles"] = {fi: "argument"}
+            det["foreign"] = (entry[2], entry[3])
             meth = rng.choice(["add_sequences", "replace_sequences", "update_sequences", "extend_sequences", "extend_matrix"])
-            status, res = run_budgeted(ctx, meth, limit, lambda: getattr(m, meth)(foreign), det, allowed=(TNIE,))
-            ctx.ev("foreign-namespace-refused")
+            status, res = run_budgeted(ctx, meth, limit, lambda: getattr(m, meth)(entry[0]), det, allowed=REFUSAL)
+            ctx.ev("foreign-namespace-offered")
             if status == "ok":
-                ctx.violation("%s|foreign-namespace-accepted" % meth, "a matrix over another namespace was accepted", det)
-                pool.models[i][0] = snapshot(m)[0]
+                ctx.violation("%s|foreign-namespace-accepted|%s" % (meth, entry[2]),
+                              "a matrix over another namespace (%s) was accepted" % entry[2], det)
+            elif status == "documented":
+                ctx.ev("foreign-namespace-refused")
+                ctx.ev("foreign-namespace-refused:%s" % entry[2])
             pool.compare_all(meth, det)
             continue
         if op in ("export_idx", "export_subset"):
-            width = max([len(v) for v in rows.values()] or [0])
+            width = model.width()
             kind = rng.choice(["empty", "all", "some", "dups", "out-of-range", "unordered"])
             if kind == "empty":
                 idx = []
@@ -307,143 +397,258 @@ def history(ctx, case, rng):
                 if kind == "dups":
                     idx = idx + idx
                 if kind == "out-of-range":
-                    idx = idx + [width + 3, width + 10]
+                    idx = idx + [width, width + 3, width + 10]
                 if kind == "unordered":
                     rng.shuffle(idx)
-            sel = sorted(set(idx))
+            ckind, arg, watched = as_container(rng, idx, allow_range=(kind == "all"))
+            before = list(watched) if watched is not None else None
+            allowed = (IndexError, ValueError) if kind == "out-of-range" else ()
             if op == "export_idx":
-                status, res = run_budgeted(ctx, "export_character_indices", limit, lambda: m.export_character_indices(idx), det)
+                name = "export_character_indices"
+                sel = sorted(set(idx))
+                status, res = run_budgeted(ctx, name, limit, lambda: m.export_character_indices(arg), det, allowed=allowed)
             else:
-                name = "cs%d" % step
-                byname = rng.random() < 0.5
-                m.new_character_subset(label=name, character_indices=idx)
-                pool.models[i][1][name] = sel
-                cs = m.character_subsets[name]
-                status, res = run_budgeted(ctx, "export_character_subset", limit,
-                                           lambda: m.export_character_subset(name if byname else cs), det)
+                name = "export_character_subset"
+                how = rng.choice(["new-by-name", "new-by-object", "recorded", "recorded", "of-another-matrix"])
+                if how == "recorded" and not model.subsets:
+                    how = "new-by-name"
+                if how == "of-another-matrix" and (not omodel.subsets or i == j):
+                    how = "new-by-object"
+                if how.startswith("new"):
+                    sname = "cs%d" % step
+                    m.new_character_subset(label=sname, character_indices=arg)
+                    sel = sorted(set(idx))
+                    model.subsets[sname] = sel
+                    target = sname if how == "new-by-name" else m.character_subsets[sname]
+                elif how == "recorded":
+                    sname = rng.choice(sorted(model.subsets))
+                    sel = list(model.subsets[sname])
+                    target = sname if rng.random() < 0.5 else m.character_subsets[sname]
+                    kind, watched = "recorded", None
+                    ctx.ev("export-of-recorded-subset")
+                else:
+                    sname = rng.choice(sorted(omodel.subsets))
+                    sel = list(omodel.subsets[sname])
+                    target = o.character_subsets[sname]
+                    det["roles"][j] = "argument"
+                    kind, watched = "of-another-matrix", None
+                if any(c >= width for c in sel):
+                    allowed = (IndexError, ValueError)
+                det["subset"] = how
+                status, res = run_budgeted(ctx, name, limit, lambda: m.export_character_subset(target), det, allowed=allowed)
+            det["indices"], det["container"] = idx[:20], ckind
+            if watched is not None and watched != before:
+                ctx.violation("%s|callers-index-list-changed" % name, "the list passed by the caller was modified", det)
+            if status == "documented":
+                ctx.note("export-refused-out-of-range-index")
             if status == "ok":
                 ctx.ev("export-judged")
-                got = snapshot(res)[0]
+                got, problems = snapshot(res)
+                for p in sorted(set(problems)):
+                    ctx.violation("%s|result-malformed|%s" % (name, p), "the exported matrix is malformed: %s" % p, det)
+                    pool.malformed.add((id(res), p))
                 want = dict((k, [v[c] for c in sel if c < len(v)]) for k, v in rows.items())
-                if got != want:
-                    ctx.violation("%s|not-the-selected-columns-ascending|%s" % ("export_character_indices" if op == "export_idx" else "export_character_subset", kind),
-                                  "exported matrix differs from the selected columns", dict(det, indices=idx[:20]))
+                wtypes = dict((k, [v[c] for c in sel if c < len(v)]) for k, v in model.types.items())
+                if got.rows != want:
+                    ctx.violation("%s|not-the-selected-columns-ascending|%s" % (name, kind),
+                                  "exported matrix differs from the selected columns", det)
+                elif not problems and not types_agree(wtypes, got.types):
+                    ctx.violation("%s|selected-columns-carry-other-character-types|%s" % (name, kind),
+                                  "exported cells have the character types %s, the selected columns %s"
+                                  % (str(sorted(got.types.items())[:2])[:120], str(sorted(wtypes.items())[:2])[:120]), det)
+                if any(t is not None for v in wtypes.values() for t in v):
+                    ctx.ev("export-of-typed-cells-judged")
                 if res.taxon_namespace is not m.taxon_namespace:
                     ctx.violation("export|result-in-other-namespace", "", det)
                 pool.compare_all("export", det)
-                pool.add(res, [want, {}])
+                pool.add(res, got)
                 if sel and rows:
-                    ctx.nontrivial(("export", kind, len(rows), width, len(sel)))
+                    ctx.nontrivial(("export", kind, ckind, len(rows), width, len(sel)))
+            else:
+                pool.compare_all("export", det)
             continue
         # ---------------- in-place operations: compute the model result first
         new = dict((k, list(v)) for k, v in rows.items())
+        newt = dict((k, list(v)) for k, v in model.types.items())
         allowed = ()
+        partial_ok = None       # remove_sequences: labels that may or may not be gone after the documented KeyError
+        must_raise = False
+        watched = before = None
         if op == "fill" or op == "pack":
             if op == "pack":
                 for lbl in pool.labels:
                     new.setdefault(lbl, [])
+                    newt.setdefault(lbl, [])
             mx = max([len(v) for v in new.values()] or [0])
-            size = rng.choice([None, None, mx, mx + 2])
+            size = rng.choice([None, None, None, mx, mx + 2, rng.randrange(mx) if mx else 0, 0])
             append = rng.random() < 0.6
             tgt = mx if size is None else size
+            form = rng.choice(["keywords", "keywords", "positional", "defaults"])
+            if form == "defaults":
+                size, append, tgt = None, True, mx
+            no_value = (op == "pack" and form == "defaults" and rng.random() < 0.4)
             val = pool.values(1)[0]
-            sval = val.upper() if isinstance(val, str) else val
+            sval = None if no_value else (val.upper() if isinstance(val, str) else val)
             for k in new:
-                pad = [sval] * (tgt - len(new[k]))
-                new[k] = new[k] + pad if append else pad + new[k]
+                short = tgt - len(new[k])
+                if short > 0:
+                    new[k] = new[k] + [sval] * short if append else [sval] * short + new[k]
+                    newt[k] = newt[k] + [WILD] * short if append else [WILD] * short + newt[k]
             if TYPES[dtype][1] is None:
                 arg = val
             else:
-                arg = m.default_state_alphabet[val] if hasattr(m, "default_state_alphabet") else val
-            if op == "fill":
-                thunk = lambda: m.fill(arg, size=size, append=append)
+                arg = m.default_state_alphabet[val]
+            f = m.fill if op == "fill" else m.pack
+            if form == "keywords":
+                thunk = lambda: f(arg, size=size, append=append)
+            elif form == "positional":
+                thunk = lambda: f(arg, size, append)
+            elif no_value:
+                thunk = lambda: f()
             else:
-                thunk = lambda: m.pack(arg, size=size, append=append)
+                thunk = lambda: f(arg)
             name = op
-            det["size"], det["append"] = size, append
+            det["size"], det["append"], det["form"], det["longest"] = size, append, form, mx
+            if size is not None and size < mx:
+                ctx.ev("fill-size-below-longest-row")
         elif op == "fill_taxa":
             for lbl in pool.labels:
                 new.setdefault(lbl, [])
+                newt.setdefault(lbl, [])
             thunk, name = (lambda: m.fill_taxa()), "fill_taxa"
         elif op in ("add", "replace", "update", "extend", "extend_new", "extend_matrix"):
             # (i == j: the matrix is its own argument - a repeated object; extending then doubles every row)
+            if i != j:
+                det["roles"][j] = "argument"
             for k, v in orows.items():
+                wild = [WILD] * len(v)
                 if op == "add" and k not in new:
-                    new[k] = list(v)
+                    new[k], newt[k] = list(v), wild
                 elif op == "replace" and k in new:
-                    new[k] = list(v)
+                    new[k], newt[k] = list(v), wild
                 elif op == "update":
-                    new[k] = list(v)
+                    new[k], newt[k] = list(v), wild
                 elif op == "extend" and k in new:
-                    new[k] = new[k] + list(v)
+                    new[k], newt[k] = new[k] + list(v), newt[k] + wild
                 elif op in ("extend_new", "extend_matrix"):
-                    new[k] = new.get(k, []) + list(v)
+                    new[k], newt[k] = new.get(k, []) + list(v), newt.get(k, []) + wild
             name = {"add": "add_sequences", "replace": "replace_sequences", "update": "update_sequences", "extend": "extend_sequences",
                     "extend_new": "extend_sequences", "extend_matrix": "extend_matrix"}[op]
             if op == "extend_new":
-                thunk = lambda: m.extend_sequences(o, is_add_new_sequences=True)
+                thunk = (lambda: m.extend_sequences(o, is_add_new_sequences=True)) if rng.random() < 0.5 else (lambda: m.extend_sequences(o, True))
             elif op == "extend":
-                thunk = lambda: m.extend_sequences(o)
+                thunk = rng.choice([lambda: m.extend_sequences(o), lambda: m.extend_sequences(o, False),
+                                    lambda: m.extend_sequences(o, is_add_new_sequences=False)])
             else:
                 thunk = lambda: getattr(m, name)(o)
         elif op in ("remove", "discard", "keep"):
             taxa = [t for t in pool.ns if rng.random() < 0.4]
-            lbls = [t.label for t in taxa]
+            variant = rng.choice(["plain", "plain", "plain", "duplicates", "strangers"])
+            if variant == "duplicates" and taxa:
+                taxa = taxa + [rng.choice(taxa)]
+            strangers = []
+            if variant == "strangers" and pool.ntax:
+                strangers = rng.sample(list(twin_ns), rng.randint(1, min(2, pool.ntax)))
+            items = taxa + strangers
+            rng.shuffle(items)
+            ckind, arg, watched = as_container(rng, items)
+            before = list(watched) if watched is not None else None
+            effective = list(set(items)) if ckind == "set" else items
+            lbls = [t.label for t in effective if not any(t is s for s in strangers)]       # strangers name no row
             name = {"remove": "remove_sequences", "discard": "discard_sequences", "keep": "keep_sequences"}[op]
             if op == "remove":
-                if any(l not in new for l in lbls):
+                nameless = bool(strangers) or any(l not in new for l in lbls)
+                repeated = len(lbls) != len(set(lbls))
+                if nameless or repeated:
+                    # documented KeyError for a taxon without sequence (demanded); a taxon named twice has no sequence the second
+                    # time (accepted, not demanded).  Whether the other named rows are removed before the error is not documented.
                     allowed = (KeyError,)
-                    # documented KeyError; rows before the missing one are already gone: model follows the documented order
-                    for l in lbls:
-                        if l not in new:
-                            break
-                        del new[l]
-                else:
-                    for l in lbls:
-                        del new[l]
+                    must_raise = nameless
+                    partial_ok = set(lbls)
+                for l in set(lbls):
+                    new.pop(l, None)
+                    newt.pop(l, None)
             elif op == "discard":
                 for l in lbls:
                     new.pop(l, None)
+                    newt.pop(l, None)
             else:
                 new = dict((k, v) for k, v in new.items() if k in lbls)
-            thunk = lambda: getattr(m, name)(taxa)
-            det["taxa"] = lbls
+                newt = dict((k, v) for k, v in newt.items() if k in lbls)
+            thunk = lambda: getattr(m, name)(arg)
+            det["taxa"], det["variant"], det["container"], det["strangers"] = lbls, variant, ckind, [t.label for t in strangers]
+            ctx.ev("taxa-argument:%s" % variant)
         elif op == "new_sequence":
             free = [t for t in pool.ns if t.label not in new]
             if not free:
+                ctx.note("step-skipped:new_sequence-without-free-taxon")
                 continue
             t = rng.choice(free)
             vals = pool.values(rng.randint(0, 4))
             new[t.label] = [v.upper() if isinstance(v, str) else v for v in vals]
-            thunk = lambda: m.new_sequence(t, vals if TYPES[dtype][1] is None else "".join(vals))
+            newt[t.label] = [WILD] * len(vals)
+            thunk = lambda: m.new_sequence(t, pool.raw(vals))
             name = "new_sequence"
         elif op == "setitem":
+            if not pool.ntax:
+                ctx.note("step-skipped:setitem-over-empty-namespace")
+                continue
             t = rng.choice(list(pool.ns))
             vals = pool.values(rng.randint(0, 4))
             new[t.label] = [v.upper() if isinstance(v, str) else v for v in vals]
-            key = rng.choice([t, t.label])
+            newt[t.label] = [WILD] * len(vals)
+            key = rng.choice([t, t.label, pool.labels.index(t.label)])
 
             def thunk():
-                m[key] = vals if TYPES[dtype][1] is None else "".join(vals)
+                m[key] = pool.raw(vals)
             name = "__setitem__"
         else:
             continue
         status, res = run_budgeted(ctx, name, limit, thunk, det, allowed=allowed)
-        if status in ("ok", "documented"):
-            if status == "ok" and allowed:
+        if watched is not None and watched != before:
+            ctx.violation("%s|callers-taxa-list-changed" % name, "the list passed by the caller was modified", det)
+        if status == "ok":
+            if must_raise:
                 ctx.violation("%s|documented-error-not-raised" % name, "KeyError expected for a taxon without sequence", det)
-            pool.models[i][0] = new
+            model.rows, model.types = new, newt
             if new != rows:
                 ctx.nontrivial((name, len(rows), len(orows), sorted(len(v) for v in new.values())[:4]))
-            if op in ("fill", "pack") and status == "ok":
+            if op in ("fill", "pack") and (det["size"] is None or det["size"] >= det["longest"]):
                 lens = set(len(seq) for seq in m._taxon_sequence_map.values())
                 if len(lens) > 1:
                     ctx.violation("%s|sequences-not-equally-long" % name, "lengths %s" % sorted(lens), det)
+        elif status == "documented":
+            # remove_sequences refused: nothing but (some of) the named rows may be gone
+            ctx.ev("remove-refusal-judged")
+            alive = set(t.label for t in m._taxon_sequence_map)
+            if not (set(rows) - partial_ok <= alive <= set(rows)):
+                ctx.violation("remove_sequences|rows-other-than-the-named-ones-changed-when-refusing",
+                              "rows %s before, %s after the KeyError; named %s" % (sorted(rows), sorted(alive), sorted(partial_ok)), det)
+            model.rows = dict((k, v) for k, v in rows.items() if k in alive or k not in partial_ok)
+            model.types = dict((k, v) for k, v in model.types.items() if k in model.rows)
+            ctx.note("remove-refused:%s" % ("nothing-removed" if alive == set(rows) else "named-rows-partly-removed"))
         else:
-            pool.models[i][0] = snapshot(m)[0]
+            got, _ = snapshot(m)
+            model.rows, model.types = got.rows, got.types
         pool.compare_all(name, det)
     if case["i"] < 3:
-        ctx.sample({"kind": "history", "dtype": dtype, "ntax": pool.ntax, "ops": log, "matrices_in_pool": len(pool.mats)})
+        ctx.sample({"kind": "history", "dtype": dtype, "ntax": pool.ntax, "ops": log, "matrices_in_pool": len(pool.mats),
+                    "foreign": [(e[2], e[3]) for e in pool.foreign]})
+
+
+def typed_row_copy(ctx, rng):
+    """recorded, not judged: what the row-copying operations do with the character types of the copied cells."""
+    pool = Pool(ctx, rng, "dna")
+    while pool.ntax == 0:
+        pool = Pool(ctx, rng, "dna")
+    src, smodel = pool.new_matrix(taxa=list(pool.ns), length=3, route="typed")
+    for meth in ("add_sequences", "update_sequences", "extend_matrix"):
+        dst = pool.cls(taxon_namespace=pool.ns)
+        getattr(dst, meth)(src)
+        got, problems = snapshot(dst)
+        kept = got.types == smodel.types
+        ctx.note("%s-%s-character-types-of-copied-cells" % (meth, "keeps" if kept else "drops"))
+    ctx.sample({"kind": "directed", "what": "row copies of a matrix whose cells carry CharacterType objects (recorded, not judged)"})
 
 
 def run_case(case, ctx):
@@ -454,6 +659,10 @@ def run_case(case, ctx):
         pool = Pool(ctx, rng, rng.choice(list(TYPES)))
         for _ in range(3):
             do_concat(ctx, pool, rng)
+    elif case["kind"] == "concat-io":
+        do_concat_io(ctx, case, rng)
+    elif case["kind"] == "directed-typed-row-copy":
+        typed_row_copy(ctx, rng)
     else:
         # canonical witness: two matrices carrying the same label
         pool = Pool(ctx, rng, "dna")
